@@ -91,6 +91,10 @@ func c05Scenarios() []dbScenario {
 		{name: "S7-compaction-excluding-oldest-under-read", mem: 1 << 20, thresh: 1, maxSize: 200, quickBound: 1, thoroughBound: 2,
 			setup:   []cop{{"put", "a", hugeVal}, {"rot", "", ""}, {"del", "a", ""}, {"rot", "", ""}, {"put", "b", "1"}, {"rot", "", ""}},
 			threads: [][]cop{{{"compact", "", ""}}, {{"get", "a", ""}, {"get", "b", ""}, {"get", "a", ""}}}},
+		// one cycle over 18 tables (more than any plausible fan-in) while the key deleted in the second table is read
+		{name: "S9-compaction-of-18-tables-under-read", mem: 1 << 20, thresh: 1, quickBound: 1, thoroughBound: 1,
+			setup:   c05ManyTables(14),
+			threads: [][]cop{{{"compact", "", ""}}, {{"get", "a", ""}, {"get", "b", ""}}}},
 		{name: "S5-compaction-drops-tombstone-under-write", mem: 1 << 20, thresh: 1, quickBound: 2, thoroughBound: 3,
 			setup:   []cop{{"put", "a", "1"}, {"rot", "", ""}, {"del", "a", ""}, {"rot", "", ""}},
 			threads: [][]cop{{{"compact", "", ""}}, {{"put", "a", "5"}, {"get", "a", ""}}}},
@@ -122,6 +126,15 @@ func c19BgScenarios() []dbScenario {
 	}
 }
 
+// c05ManyTables: a=1 in the oldest table, two filler tables, the deletion of a in the fourth, then more filler tables.
+func c05ManyTables(filler int) []cop {
+	ops := []cop{{"put", "a", "1"}, {"rot", "", ""}, {"put", "b", "x"}, {"rot", "", ""}, {"put", "b", "y"}, {"rot", "", ""}, {"del", "a", ""}, {"rot", "", ""}}
+	for i := 0; i < filler; i++ {
+		ops = append(ops, cop{"put", "b", fmt.Sprint(i % 10)}, cop{"rot", "", ""})
+	}
+	return ops
+}
+
 func c05ScenarioByName(n string) schedScenario {
 	for _, s := range c05FineScenarios() {
 		if s.name == n {
@@ -148,7 +161,7 @@ func (c c05) Run(ctx *core.Ctx) error {
 			scns = append(scns, s)
 		}
 	}
-	ctx.Ev.Rule = "7 scenarios of 2-3 client goroutines (1-2 operations each on colliding keys) plus the real flusher goroutine and, in two scenarios, a goroutine running one compaction cycle; every interleaving with at most N preemptions is executed on the real SimpleDB under a cooperative scheduler injected by source rewriting (scheduling points: every lock, channel and atomic operation and every statement touching the memstore pair / table list); each execution's history of call/return steps and results (plus a final sequential read of all keys) must be linearizable against a map; deadlock, panic and any API error are violations. distinct = (scenario, observed history class); non-trivial = executions with at least one preemption"
+	ctx.Ev.Rule = "8 scenarios of 2-3 client goroutines (1-2 operations each on colliding keys) plus the real flusher goroutine and, in two scenarios, a goroutine running one compaction cycle; every interleaving with at most N preemptions is executed on the real SimpleDB under a cooperative scheduler injected by source rewriting (scheduling points: every lock, channel and atomic operation and every statement touching the memstore pair / table list); each execution's history of call/return steps and results (plus a final sequential read of all keys) must be linearizable against a map; deadlock, panic and any API error are violations. distinct = (scenario, observed history class); non-trivial = executions with at least one preemption"
 	ctx.Ev.Bounds["scenarios"] = len(scns)
 	ctx.Ev.Assume = []string{"lock operations are atomic at their scheduling point (a parked thread has not called Lock yet), which is exact for the non-reentrant locking in simpledb",
 		"the compaction ticker goroutine is not part of the scenarios; one cycle runs in a harness goroutine through the tag-guarded helper"}
